@@ -35,6 +35,7 @@ def main():
             tc = time.time()
             r.run_exhaustive()
             r.run_hypothesis()
+            r.run_external(outdir)
             res = r.result()
             res["wall_s"] = round(time.time() - tc, 2)
             out["clauses"].append(res)
